@@ -1,5 +1,7 @@
 import Falcon.Model.KeygenSkel
 import Falcon.Gen.Scan
+import Falcon.Model.Keygen
+import Falcon.Lemmas.ChaChaStream
 
 /-!
 # C15 — key generation is a deterministic function of the seed
@@ -30,5 +32,26 @@ theorem gen_poly_constants :
 /-- the model's candidate stage is a function of (mode, degree, seed) alone -/
 theorem candidates_are_a_function_of_the_seed (chk : Bool) (n : Nat) (s1 s2 : List Nat) (h : s1 = s2) :
     KeygenSkel.firstCandidate chk n s1 = KeygenSkel.firstCandidate chk n s2 := by rw [h]
+
+/-- the whole modelled key generation (`Model/Keygen.ntruGen`: candidate loop with its four guards, `ntru_solve`, both
+    Babai reductions — byte-identical with the real `keygen` on every compared seed) takes the build mode, the degree
+    and the 32 seed bytes and nothing else: it has no other argument, reads no state and is a total function, so two
+    runs on the same seed return the same (f, g, F, G) -/
+theorem keygen_model_is_a_function_of_the_seed (chk : Bool) (n : Nat) (s1 s2 : List Nat) (h : s1 = s2) :
+    Keygen.ntruGen chk n s1 = Keygen.ntruGen chk n s2 := by rw [h]
+
+/-- **the candidates are drawn consecutively from ONE ChaCha12 keystream of the seed**: the window of blocks that the
+    model of `ntru_gen` opens for a candidate at byte offset `off` (where the previous candidate stopped reading) is
+    exactly the keystream `StdRng::from_seed(seed)` yields from byte `off` on — no re-seeding, no second stream, no
+    bytes skipped or read twice between candidates -/
+theorem candidate_window_is_the_keystream (seed : List Nat) (off nb : Nat) :
+    (ChaCha.byteStreamFrom seed (off / 16) nb).drop (off % 16) = (ChaCha.byteStream seed (off / 16 + nb)).drop off :=
+  ChaCha.window_at_offset seed off nb
+
+/-- … and the keystream does not depend on how far it was expanded -/
+theorem keystream_is_one_stream (seed : List Nat) (a b : Nat) :
+    ChaCha.byteStream seed (a + b) = ChaCha.byteStream seed a ++ ChaCha.byteStreamFrom seed a b ∧
+    (ChaCha.byteStream seed (a + b)).take (16 * a) = ChaCha.byteStream seed a :=
+  ⟨ChaCha.byteStream_add seed a b, ChaCha.keystream_prefix seed a b⟩
 
 end Falcon.Props.C15
